@@ -76,8 +76,11 @@ def report(ctx, o, why):
 
 
 def run_harness(ctx, n, seed, name="cases.jsonl", maxreq=3000, env=None):
-    ok, _ = ctx.harness_run("c08", ["-out", name, "-seed", seed, "-n", n, "-cancel", 0, "-maxreq", maxreq],
-                            timeout=900, env=env)
+    args = ["-seed", seed, "-n", n, "-cancel", 0, "-maxreq", maxreq]
+    ok, _ = ctx.harness_run("c08", ["-out", name] + args, timeout=900, env=env)
+    if not ok:
+        from checks import c07
+        c07.crash_finding(ctx, "c08", args, n + 2, env, prop="C08", key="engine:crash")
     return ctx.read_jsonl(os.path.join(ctx.work, name)) if ok else []
 
 
@@ -126,6 +129,34 @@ def run(ctx):
                 path = ctx.write_replay("wired-%d-%s" % (o["workers"], (o["rate"] or "none").replace("/", "per")),
                                         {"property": "C08", "what": why, "input": {"workers": o["workers"], "rate": o["rate"]}, "observed": o})
                 ctx.findings.append({"key": "wired:" + o["rate"], "what": why, "replay": path})
+    if rows:
+        # the real socks / elastic / docker commands end to end against loopback services, one target listed twice
+        sx = os.path.join(ctx.work, "sx")
+        rc, out = verif.sh(["go", "build", "-o", sx, "."], env=verif.GOENV, cwd=verif.REPO, timeout=900)
+        if rc != 0:
+            ctx.broken.append(("correspondence: the sx binary does not build", out[-1500:]))
+        else:
+            ok, _ = ctx.harness_run("c08", ["-e2e", sx, "-out", "e2e.jsonl"], timeout=300)
+            for o in (ctx.read_jsonl(os.path.join(ctx.work, "e2e.jsonl")) if ok else []):
+                want = {}
+                for t in o["targets"]:
+                    want[t] = want.get(t, 0) + 1
+                ctx.count("e2e", ("e2e", o["cmd"]), nontrivial=True,
+                          sample={"cmd": o["cmd"], "probes": o["probes"], "records": o["records"], "ms": o["ms"]})
+                why = None
+                if o["exit"] != 0:
+                    why = "exit status %d (%s)" % (o["exit"], o["stderr"][:200])
+                elif o["bad_line"]:
+                    why = "an output line is not a complete record: %r" % o["bad_line"][:120]
+                elif o["probes"] != want:
+                    why = "targets probed %s, the file lists %s" % (o["probes"], want)
+                elif o["records"] != want:
+                    why = "%d probes detected a service but the records printed are %s (one target is listed twice: every " \
+                          "probe yields its own record)" % (sum(want.values()), o["records"])
+                if why:
+                    why = "sx %s --json -f <3 ip/port pairs, one listed twice> -w 1: %s" % (o["cmd"], why)
+                    path = ctx.write_replay("e2e-" + o["cmd"], {"property": "C08", "what": why, "input": {"args": o["args"], "targets": o["targets"]}, "observed": o})
+                    ctx.findings.append({"key": "e2e:" + o["cmd"], "what": why, "replay": path})
     if model_ok and rows:
         small = [o for o in rows if len(o["reqs"] or []) <= 120 and o["w"] <= 16 and not o["panic"] and o["returned"]]
         small = small[:48 if quick else 400]
